@@ -204,8 +204,17 @@ func (r *rs) boundedCaller(key string, fn *core.Fn, g *cfgq.Graph, root ast.Node
 		return
 	}
 	call := calls[0]
-	c.Check("R2.reader", key+"/copy-reader", call.Pos(), flow.IsObj(info, wantReader)(call.Args[0]),
-		"the RDB is copied from the buffered reader that was handed over: bytes already buffered there would otherwise be skipped")
+	if cpt, in := flow.PointOf(g, call); in {
+		var outer ast.Node
+		if fn.Decl.Body != g.Body {
+			outer = fn.Decl.Body
+		}
+		r.checkSame("R2.reader", key+"/copy-reader", call.Pos(), g, outer, cpt, call.Args[0], wantReader,
+			"the RDB is copied from the buffered reader that was handed over: bytes already buffered there would otherwise be skipped")
+	} else {
+		c.Check("R2.reader", key+"/copy-reader", call.Pos(), flow.IsObj(info, wantReader)(call.Args[0]),
+			"the RDB is copied from the buffered reader that was handed over: bytes already buffered there would otherwise be skipped")
+	}
 	path := core.PathTo(root, call)
 	var loop *ast.ForStmt
 	for _, n := range path {
@@ -458,7 +467,7 @@ func (r *rs) startsAtForm(key string, root ast.Node, forms []lin.Form, counter a
 					total.Coef[a] = v
 				}
 			}
-			zero := co != nil && startsAtZero(info, root, co)
+			zero := co != nil && startsAtZero(info, root, co) || co == nil && fieldStartsAtZero(info, root, counter)
 			switch {
 			case total.Equal(want) && zero:
 				c.Okf("R3.bounded", k, pos, "the copy counts up to the announced size %s from 0", sizeParam.Name())
@@ -471,6 +480,56 @@ func (r *rs) startsAtForm(key string, root ast.Node, forms []lin.Form, counter a
 		}
 	}
 	c.Undecidedf("R3.bounded", k, pos, "the remaining count is not a countdown variable or total - done")
+}
+
+// fieldStartsAtZero: the progress counter is a field of a struct local built once by a literal (or its
+// address) that does not mention the field - it holds its zero value - and the field is never assigned.
+func fieldStartsAtZero(info *types.Info, root ast.Node, counter ast.Expr) bool {
+	sel, ok := ast.Unparen(counter).(*ast.SelectorExpr)
+	if !ok {
+		return false
+	}
+	base, isVar := flow.Obj(info, sel.X).(*types.Var)
+	if !isVar || base.IsField() || flow.Assignments(info, root, base) != 1 {
+		return false
+	}
+	zero, bad := false, false
+	core.InspectAll(root, func(m ast.Node) bool {
+		as, isAs := m.(*ast.AssignStmt)
+		if !isAs {
+			return true
+		}
+		for i, l := range as.Lhs {
+			if ls, isSel := ast.Unparen(l).(*ast.SelectorExpr); isSel && flow.IsObj(info, base)(ls.X) && ls.Sel.Name == sel.Sel.Name {
+				bad = true
+			}
+			if !flow.IsObj(info, base)(l) || len(as.Lhs) != len(as.Rhs) {
+				continue
+			}
+			r := ast.Unparen(as.Rhs[i])
+			if u, isAddr := r.(*ast.UnaryExpr); isAddr && u.Op == token.AND {
+				r = ast.Unparen(u.X)
+			}
+			lit, isLit := r.(*ast.CompositeLit)
+			if !isLit {
+				bad = true
+				continue
+			}
+			zero = true
+			stt, _ := info.TypeOf(lit).Underlying().(*types.Struct)
+			for j, el := range lit.Elts {
+				if kv, keyed := el.(*ast.KeyValueExpr); keyed {
+					if k, isKey := kv.Key.(*ast.Ident); isKey && k.Name == sel.Sel.Name {
+						zero = isConst(info, kv.Value, 0)
+					}
+				} else if stt != nil && j < stt.NumFields() && stt.Field(j).Name() == sel.Sel.Name {
+					zero = isConst(info, el, 0)
+				}
+			}
+		}
+		return true
+	})
+	return zero && !bad
 }
 
 // startsAtZero: the progress counter is declared without a value (atomic counter, zero int) or initialised with 0.
